@@ -593,6 +593,10 @@ func (c *Ctx) load(s *State, p PtrV) Val {
 			at := p.Elem.Underlying().(*types.Array)
 			return ArrV{A: c.loadLiftedMem(s, p.ArrId, at.Elem(), typeKey(at.Elem()), ""), N: at.Len(), Elem: at.Elem()}
 		}
+		if lv, ok := c.constArrVals["cslice:"+p.ArrId]; ok && lv != nil && len(p.Path) == 0 {
+			// element of an effectively-constant package-level slice literal
+			return sel(lv, p.Idx)
+		}
 		base, t := fieldPathStr(p.Root, p.Path)
 		return c.loadAt(s, objLoc{kind: 2, keyPfx: typeKey(p.Root), arrId: p.ArrId, idx: p.Idx}, t, base)
 	}
@@ -823,12 +827,22 @@ func (c *Ctx) strLit(s string) StrV {
 	}
 	c.n++
 	nm := fmt.Sprintf("strlit_%d", c.n)
-	term := "EMPTY8"
-	for i := 0; i < len(s); i++ {
-		if s[i] == 0 {
-			continue
+	var term string
+	if len(s) <= 12 {
+		term = "EMPTY8"
+		for i := 0; i < len(s); i++ {
+			if s[i] == 0 {
+				continue
+			}
+			term = fmt.Sprintf("(store %s %s %s)", term, i64(int64(i)), bvlit(8, uint64(s[i])))
 		}
-		term = fmt.Sprintf("(store %s %s %s)", term, i64(int64(i)), bvlit(8, uint64(s[i])))
+	} else {
+		// long literals: a lambda array over a balanced decision tree on the index (z3 beta-reduces selects; no store chains)
+		vals := make([]string, len(s))
+		for i := 0; i < len(s); i++ {
+			vals[i] = bvlit(8, uint64(s[i]))
+		}
+		term = fmt.Sprintf("(lambda ((i %s)) %s)", BV64, balancedTree(vals, 0, len(vals), "#x00"))
 	}
 	c.decls = append(c.decls, fmt.Sprintf("(define-fun %s () %s %s)", nm, INNER8, term))
 	c.strLits[s] = nm
@@ -842,4 +856,20 @@ func sortedKeys(m map[string]string) []string {
 	}
 	sort.Strings(ks)
 	return ks
+}
+
+// balancedTree builds a binary decision tree over index i for vals[lo:hi] (default for out-of-range indices).
+func balancedTree(vals []string, lo, hi int, def string) string {
+	var rec func(lo, hi int) string
+	rec = func(lo, hi int) string {
+		if hi-lo == 1 {
+			return vals[lo]
+		}
+		mid := (lo + hi) / 2
+		return fmt.Sprintf("(ite (bvult i %s) %s %s)", i64(int64(mid)), rec(lo, mid), rec(mid, hi))
+	}
+	if len(vals) == 0 {
+		return def
+	}
+	return fmt.Sprintf("(ite (bvult i %s) %s %s)", i64(int64(hi)), rec(lo, hi), def)
 }
